@@ -477,7 +477,8 @@ Proof.
   injection H as H0 H1 H2 H3 H4 H5 H6 H7.
   apply N.bits_inj; intro n.
   destruct (N.lt_ge_cases n 8) as [Hn|Hn].
-  - assert (n = 0 \/ n = 1 \/ n = 2 \/ n = 3 \/ n = 4 \/ n = 5 \/ n = 6 \/ n = 7) as Hc by lia.
+  - assert (n = 0 \/ n = 1 \/ n = 2 \/ n = 3 \/ n = 4 \/ n = 5 \/ n = 6 \/ n = 7) as Hc
+      by (clear - Hn; lia).
     destruct Hc as [->|[->|[->|[->|[->|[->|[->| ->]]]]]]]; assumption.
   - change 256 with (2 ^ 8) in Hx, Hy. rewrite lt_pow2_bits in Hx, Hy.
     rewrite Hx, Hy by exact Hn. reflexivity.
@@ -491,8 +492,10 @@ Proof.
   - reflexivity.
   - discriminate.
   - discriminate.
-  - inversion Ha; subst. inversion Hb; subst.
-    rewrite !bits_of_cons in H. unfold byte_bits at 1 3 in H. cbn [map app] in H.
+  - pose proof (Forall_inv Ha) as Hx. pose proof (Forall_inv_tail Ha) as Ha'.
+    pose proof (Forall_inv Hb) as Hy. pose proof (Forall_inv_tail Hb) as Hb'.
+    simpl in Hx, Hy. clear Ha Hb.
+    rewrite !bits_of_cons in H. unfold byte_bits at 1 2 in H. cbn [map app] in H.
     injection H as H0 H1 H2 H3 H4 H5 H6 H7 Hr.
     f_equal; [|apply IH; assumption].
     apply byte_bits_inj; try assumption.
@@ -558,6 +561,98 @@ Proof.
   - repeat constructor; assumption.
   - repeat constructor; assumption.
   - congruence.
+Qed.
+
+(* ------------------------------------------------------------------ *)
+(* le32 / of_le round trips; checksum given as 4 raw bytes             *)
+
+Lemma land_shiftr_byte a r :
+  a < 256 -> N.land (a + 256 * r) 255 = a /\ N.shiftr (a + 256 * r) 8 = r.
+Proof.
+  intros Ha. change 255 with (N.ones 8).
+  rewrite N.land_ones, N.shiftr_div_pow2. change (2 ^ 8) with 256. split.
+  - symmetry. apply (N.mod_unique _ 256 r a); [exact Ha | lia].
+  - symmetry. apply (N.div_unique _ 256 r a); [exact Ha | lia].
+Qed.
+
+Theorem le32_of_le cf :
+  length cf = 4%nat -> Forall (fun x => x < 256) cf -> le32 (of_le cf) = cf.
+Proof.
+  intros Hl HF.
+  destruct cf as [|a [|b [|c [|d [|]]]]]; try discriminate. clear Hl.
+  pose proof (Forall_inv HF) as Ha. apply Forall_inv_tail in HF.
+  pose proof (Forall_inv HF) as Hb. apply Forall_inv_tail in HF.
+  pose proof (Forall_inv HF) as Hc. apply Forall_inv_tail in HF.
+  pose proof (Forall_inv HF) as Hd. clear HF. simpl in Ha, Hb, Hc, Hd.
+  unfold of_le. cbn [fold_right]. unfold le32.
+  change 24 with (8 + (8 + 8)). change 16 with (8 + 8).
+  rewrite <- !N.shiftr_shiftr.
+  destruct (land_shiftr_byte a (b + 256 * (c + 256 * (d + 256 * 0))) Ha) as [-> ->].
+  destruct (land_shiftr_byte b (c + 256 * (d + 256 * 0)) Hb) as [-> ->].
+  destruct (land_shiftr_byte c (d + 256 * 0) Hc) as [-> ->].
+  destruct (land_shiftr_byte d 0 Hd) as [-> _].
+  reflexivity.
+Qed.
+
+Lemma le32_bytes_lt x : Forall (fun b => b < 256) (le32 x).
+Proof. unfold le32. repeat constructor; apply land_255_lt. Qed.
+
+Theorem of_le_le32 x : x < 2 ^ 32 -> of_le (le32 x) = x.
+Proof.
+  intros Hx. unfold le32, of_le. cbn [fold_right].
+  change 255 with (N.ones 8). rewrite !N.land_ones, !N.shiftr_div_pow2.
+  change (2 ^ 8) with 256. change (2 ^ 16) with (256 * 256).
+  change (2 ^ 24) with (256 * (256 * 256)).
+  rewrite <- !N.div_div by lia.
+  set (x1 := x / 256). set (x2 := x1 / 256). set (x3 := x2 / 256).
+  pose proof (N.div_mod' x 256) as E0. fold x1 in E0.
+  pose proof (N.div_mod' x1 256) as E1. fold x2 in E1.
+  pose proof (N.div_mod' x2 256) as E2. fold x3 in E2.
+  assert (H3 : x3 < 256).
+  { unfold x3, x2, x1. rewrite !N.div_div by lia.
+    apply N.div_lt_upper_bound; [lia|]. change (2 ^ 32) with 4294967296 in Hx. lia. }
+  rewrite (N.mod_small x3 256 H3). lia.
+Qed.
+
+(* the corrupted checksum field given as 4 raw bytes cf' (compare with of_le cf') *)
+Theorem crc_detects_burst_raw (data data' cf' : list byte) :
+  length cf' = 4%nat -> Forall (fun x => x < 256) cf' ->
+  burst_error (bits_of (data ++ le32 (crc32c data))) (bits_of (data' ++ cf')) ->
+  crc32c data' <> of_le cf'.
+Proof.
+  intros Hl HF Hb. rewrite <- (le32_of_le cf' Hl HF) in Hb.
+  rewrite <- !codeword_bytes in Hb.
+  apply (crc_detects_burst data data' (crc32c data) (of_le cf') eq_refl Hb).
+Qed.
+
+(* checksums of equal-length inputs differ by the zero-register residue of the xor of the inputs *)
+Theorem crc_update_lxor c0 a b :
+  length a = length b ->
+  N.lxor (crc_update c0 a) (crc_update c0 b) = crc_run 0 (xorl (bits_of a) (bits_of b)).
+Proof.
+  intros Hl. rewrite !crc_update_run.
+  rewrite <- (N.lxor_nilpotent (N.lxor c0 mask32)).
+  rewrite crc_run_linear' by (rewrite !bits_of_length, Hl; reflexivity).
+  apply N.bits_inj; intro n. rewrite !N.lxor_spec.
+  destruct (N.testbit mask32 n), (N.testbit (crc_run (N.lxor c0 mask32) (bits_of a)) n),
+           (N.testbit (crc_run (N.lxor c0 mask32) (bits_of b)) n); reflexivity.
+Qed.
+
+Corollary crc32c_lxor a b :
+  length a = length b ->
+  N.lxor (crc32c a) (crc32c b) = crc_run 0 (xorl (bits_of a) (bits_of b)).
+Proof. apply crc_update_lxor. Qed.
+
+(* sanity: a 32-bit burst straddling five bytes of "123456789" is recognised and detected *)
+Example is_burst32_example :
+  is_burst32 (xorl (codeword ascii_123456789 0xE3069283)
+                   (codeword [49;50;51;180;203;201;201;52;57] 0xE3069283)) = true.
+Proof. vm_compute. reflexivity. Qed.
+
+Example burst_detected_example : crc32c [49;50;51;180;203;201;201;52;57] <> 0xE3069283.
+Proof.
+  apply (crc_detects_burst_dec ascii_123456789 _ 0xE3069283); [vm_compute; reflexivity | reflexivity |].
+  exact is_burst32_example.
 Qed.
 
 Print Assumptions crc_detects_burst.
